@@ -404,6 +404,14 @@ def oracle_c04(steps: list[Step], counters: dict | None = None) -> list[Violatio
         f = facts_of(st)
         f["kind"] = st.pred[1]
         f["canonical"] = canonical
+        tb_, ta_ = st.dec_before.shape.target, st.dec_out.shape.target
+        # the target set flips between one-line and multi-line layout (a member became / ceased to be multi-line)
+        f["layout_switch"] = (b"\n" in st.dec_before.doc.data[tb_.start_byte:tb_.end_byte]) != (b"\n" in st.dec_out.doc.data[ta_.start_byte:ta_.end_byte])
+        if f["layout_switch"] and canonical:
+            # a value that becomes (or ceases to be) multi-line forces the one-line set that holds it into the
+            # other layout; braces and separators then change by necessity: token and comment clauses only
+            bump("skip:layout_switch")
+            canonical = False
         problems = locality.check_step(st, canonical=canonical)
         for suffix, msg in problems:
             if suffix == "skip":
